@@ -343,6 +343,9 @@ theorem step_inv {c : Cache K V} (h : Inv c) (op : Op K V) : Inv (step c op).1 :
   | items => exact h
   | eq o => exact h
   | ne o => exact h
+  | updateFail l => exact Cache.setAll_inv h l
+  | eqOther => exact h
+  | neOther => exact h
 
 theorem run_inv {c : Cache K V} (h : Inv c) (ops : List (Op K V)) : Inv (run c ops) := by
   unfold run
